@@ -25,6 +25,9 @@ Laws decided for every datatype object D in {dt, cdt} and every internal value v
            standard-alphabet base64 str for blob, list for array/tuple, object with exactly v's keys for struct),
            checked position by position against the spec
   denote   e denotes v according to the spec (n = v/scale for scaled, member value for enum, decoded base64 == v, ...)
+  frame    e goes through the real frappy.protocol.interface functions: encode_msg_frame('update', 'm:p', [e, qualifiers])
+           (node) resp. encode_msg_frame('change', 'm:p', e) (client) -> exactly one line of bytes -> get_msg ->
+           decode_msg must not raise and must give action / specifier / report structure back; e' = the decoded payload
   reimport dt.validate(dt.import_value(e'))  == v      (node side, exactly what the dispatcher does with `change`)
            cdt.import_value(e') == v                   (client side, exactly what SecopClient does with updates/replies)
            for both exporters (a value exported by the client datatype is re-imported by the node and vice versa)
@@ -204,7 +207,12 @@ NASTY_FLOATS = [-0.0, 0.1, 1 / 3, 2 / 3, 1e-7, 1e-5, 0.0001, 0.30000000000000004
                 T.FMAX, -T.FMAX, -2.5, -1e-7, 99.99999999, 4.999999999999999, 100.0, -100.0]
 STRINGS = ['None', "it's", '"""', "'''", '\\n', '\t', 'a,b', '(1,)', '{', '#x', ' ', '\r\n', '\x7f', '\x01', 'x' * 1000,
            'xx', 'xyz', 'wxyz', '\\"', "\\'", 'a\\', '%s', '{0}']
-UTF8_STRINGS = ['\u2028', '\ud7ff', '\uffff', '\xe4"\\', '\xe9' * 4, '\U0010ffff', '\xb5', '\x80']
+UTF8_STRINGS = ['\u2028', '\ud7ff', '\uffff', '\xe4"\\', '\xe9' * 4, '\U0010ffff', '\xb5', '\x80', '\U00010000', '\U0001f600',
+                # code points that are no characters: lone high / low surrogates, what bytes.decode(errors='surrogateescape')
+                # yields for undecodable bytes (U+DC80..U+DCFF), halves of a pair, a reversed pair and the two halves of a
+                # pair as separate code points
+                '\ud800', '\udbff', '\udc00', '\udfff', '\udc80', '\udcff', 'T\udcb0C', '25\udcb0', '\udcc3\udca4',
+                'a\ud83d', '\ude00b', '\udc00\ud800', '\ude00\ud83d', '\ud800\udc00', '\ud83d\ude00']
 
 
 def deep():
@@ -473,6 +481,21 @@ def wdiff(spec, e, c):
     return None if type(e) is type(c) and e == c else k
 
 
+SURR_PAIR = re.compile('[\ud800-\udbff][\udc00-\udfff]')
+SURR_ANY = re.compile('[\ud800-\udfff]')
+
+
+def value_class(kind, v):
+    """input class of a leaf value for the signature (strings: surrogate code points are no characters; JSON text can not
+    tell the two halves of a pair given as separate code points from the astral character)"""
+    if kind == 'string' and isinstance(v, str):
+        if SURR_PAIR.search(v):
+            return ':high-low-surrogates-as-separate-code-points'
+        if SURR_ANY.search(v):
+            return ':lone-surrogate'
+    return ''
+
+
 def vdiff(spec, a, b, skipfloat=False):
     """None if a equals b (==), else (kind at the first difference, reason-class).  skipfloat: double/scaled leaves
     are exempt (container shapes are not)"""
@@ -512,7 +535,7 @@ def vdiff(spec, a, b, skipfloat=False):
             return None
     except Exception:
         pass
-    return k, 'value-differs'
+    return k, 'value-differs' + value_class(k, a)
 
 
 def children(spec, v):
@@ -579,6 +602,40 @@ def _dumps_fails(e):
     except Exception:
         return True
     return False
+
+
+class FrameError(Exception):
+    pass
+
+
+def through_frame(side, e):
+    """the exported value on its way through the REAL frame functions of frappy.protocol.interface, as the node sends it
+    (update m:p [value, qualifiers]) resp. as the client sends it (change m:p value): -> the JSON value the peer decodes"""
+    from frappy.protocol.interface import encode_msg_frame, decode_msg, get_msg, EOL
+    action, data = ('update', [e, {'t': 1.5}]) if side == 'node' else ('change', e)
+    frame = encode_msg_frame(action, 'm:p', data)
+    if not isinstance(frame, bytes) or not frame.endswith(EOL) or frame.count(EOL) != 1:
+        raise FrameError('the frame is not exactly one line')
+    msg, rest = get_msg(frame)
+    if rest:
+        raise FrameError('bytes left over after deframing')
+    a2, s2, d2 = decode_msg(msg)
+    if (a2, s2) != (action, 'm:p'):
+        raise FrameError('action / specifier changed')
+    if side == 'node':
+        if not isinstance(d2, list) or len(d2) != 2 or d2[1] != {'t': 1.5}:
+            raise FrameError('report structure changed')
+        return d2[0]
+    return d2
+
+
+def frame_fails(dt, side, v):
+    try:
+        e = dt.export_value(v)
+        json.dumps(e, allow_nan=False)
+    except Exception:
+        return False
+    return raises(through_frame, side, e)
 
 
 def text_refused(dt, v):
@@ -710,6 +767,19 @@ class Checker:
                 self.viol('json', side, shape(sub, sv), type(ex).__name__, case,
                           f'{where}: exported {e!r} is not strict JSON: {type(ex).__name__}: {ex}')
             if text is not None:
+                # the way to the peer leads through the real frame functions
+                part.traces += 1
+                ok, ef = self.call(through_frame, side, e)
+                part.outcomes[f'{top}:{side}:frame:{"ok" if ok else "raised"}'] += 1
+                if not ok:
+                    sub, sv = localise(spec, v, lambda t, x: frame_fails(t.side(side), side, x))
+                    self.viol('frame', side, shape(sub, sv), type(ef).__name__, case,
+                              f'{where}: exported as {text}; building / decoding the message frame raised '
+                              f'{type(ef).__name__}: {ef} (innermost failing part: {T.sstr(sub)} {sv!r})')
+                else:
+                    if repr(ef) != repr(e2):
+                        part.outcomes['frame:payload-differs-from-plain-json'] += 1
+                    e2 = ef      # what the peer really receives
                 if e2 != e or repr(e2) != repr(e):
                     # tuples become lists, EnumMembers ints ...: caught by the kind law below with a better message
                     part.outcomes['json:changed-by-serialisation'] += 1
@@ -830,8 +900,8 @@ def run(ctx):
                 'more than 6 significant digits, and 10 integer types with limits / values beyond 2^53) x '
                 '{node datatype, client datatype rebuilt from the JSON datainfo} x every valid candidate of the spec-derived '
                 'value catalogue (limits and their neighbours, all grid points of small scaled ranges / edge and power-of-two '
-                'grid points of large ones, every enum member, every byte value, all base64 paddings, quoting-hostile and '
-                'non-ASCII strings, empty/maximal containers, structs lacking optional members) in wire and driver form; '
+                'grid points of large ones, every enum member, every byte value, all base64 paddings, quoting-hostile, '
+                'non-ASCII, astral and lone-surrogate strings, empty/maximal containers, structs lacking optional members) in wire and driver form; '
                 'per strict candidate: the accepted value denotes the candidate (reference model) and is exported in the canonical wire '
                 'form of the candidate; per distinct internal value: export, strict JSON, kind, denotation, re-import on node and client, text form '
                 'round trip.  states = distinct (datatype object, internal value); distinct_nontrivial = those whose encoding '
